@@ -77,7 +77,8 @@ def _replies(ctx, rep, stub):
             wrap = ctx.rng.choice(['%s', 'role:nobody or %s', 'not not %s', '(role:r0 and %s)', 'rule:inner'])
             rules = {'outer': wrap % url_rule if wrap != 'rule:inner' else 'rule:inner', 'inner': url_rule}
             for ctype in ('application/x-www-form-urlencoded', 'application/json'):
-                scs.append({'rules': rules, 'queries': [{'rule': 'outer', 'target': {'tk': 'tv'}, 'creds': {'roles': ['r0']}}],
+                scs.append({'rules': rules, 'queries': [{'rule': 'outer', 'target': {'tk': 'tv'},
+                                                         'creds': {'roles': ['r0'], 'tk': 'from-the-credentials'}}],
                             'remote': {url: {'body': body, 'status': status}}, 'content_type': ctype})
                 metas.append((body, status, url, 'body'))
     for fault in ('timeout', 'transport'):
@@ -87,6 +88,19 @@ def _replies(ctx, rep, stub):
                         'queries': [{'rule': 'outer', 'target': {'tk': 'tv'}, 'creds': {'roles': []}}],
                         'remote': {url: fault}})
             metas.append(('', 0, url, fault))
+    # a fault below a rule: reference (alone, under not, inside and), then a normal reply through the same reference: the
+    # fault raises, and the next evaluation must look at the new reply
+    for fault in ('timeout', 'transport'):
+        for kind in ('http', 'https'):
+            for wrap in ('rule:inner', 'not rule:inner', 'role:r0 and rule:inner', 'rule:mid'):
+                url = '%s://h.example/tv/check' % kind
+                rules = {'outer': wrap, 'mid': 'rule:inner or role:nobody', 'inner': '%s://h.example/%%(tk)s/check' % kind}
+                q = [{'rule': 'outer', 'target': {'tk': 'tv'}, 'creds': {'roles': ['r0']}}]
+                scs.append({'rules': rules, 'queries': q, 'remote': {url: fault}})
+                metas.append(('', 0, url, fault))
+                for body in ('True', 'False'):
+                    scs.append({'rules': rules, 'queries': q, 'remote': {url: {'body': body, 'status': 200}}})
+                    metas.append((body, 200, url, 'body-neg' if wrap.startswith('not') else 'body'))
     it = iter(metas)
 
     def check(sc, outs):
@@ -94,6 +108,8 @@ def _replies(ctx, rep, stub):
         stripped = body.lstrip('"').rstrip('"')
         if mode == 'body':
             want = 'allow' if stripped == 'True' else 'deny'
+        elif mode == 'body-neg':
+            want = 'deny' if stripped == 'True' else 'allow'
         elif mode == 'timeout':
             want = 'raise:RuntimeError'
         else:
@@ -143,7 +159,7 @@ def _payload(ctx, rep, stub):
                 conf.set_override('remote_content_type', ctype, group='oslo_policy')
                 e = policy.Enforcer(conf, use_conf=False)
                 e.set_rules(policy.Rules.from_dict({'p:name': depth_rule, 'deep': 'not not http://h/%(tk)s'}), use_conf=False)
-                creds = {'roles': ['r'], 'user_id': 'u', 'nested': {'x': [1, 2]}}
+                creds = {'roles': ['r'], 'user_id': 'u', 'nested': {'x': [1, 2]}, 'tk': 'value-from-the-credentials'}
                 stub.calls = []
                 stub.plan = {'http://h/tv': ('body', 'True', 200)}
                 before = dict(target)
